@@ -448,6 +448,9 @@ def _short_if_token_ranges(root):
     return out
 
 
+_HIST = [0]
+
+
 def luafmt(src, w, record=None, link=None):
     """-> ('OK', bytes) | ('ERR', name).  link: list that receives (byte offset in src of a code token that
     follows a non-empty white-space run, the writer's _indent at that run)"""
@@ -461,6 +464,18 @@ def luafmt(src, w, record=None, link=None):
     try:
         l = lua.Lua.from_lines([src], version=8)
         out = b''.join(l.to_lines(writer_cls=cls, writer_args={'indentwidth': w}))
+        if record is None:
+            # every third plain call: the same text through a Lua object that is not fresh - it has been echoed, asked
+            # for its character count and formatted at another width before.  The result must not depend on that history.
+            _HIST[0] += 1
+            if _HIST[0] % 3 == 0:
+                l2 = lua.Lua.from_lines([src], version=8)
+                b''.join(l2.to_lines())
+                l2.get_char_count()
+                b''.join(l2.to_lines(writer_cls=lua.LuaFormatterWriter, writer_args={'indentwidth': (w + 3) % 9}))
+                out2 = b''.join(l2.to_lines(writer_cls=lua.LuaFormatterWriter, writer_args={'indentwidth': w}))
+                if out2 != out:
+                    return 'ERR', 'depends-on-the-history-of-the-Lua-object'
         if link is not None and record is not None:
             starts = [0]
             for k, ch in enumerate(src):
